@@ -190,13 +190,22 @@ class Check:
                         i += 1
 
                 fails = []
+                known_hits = []
+                open_findings = [f for f in load_findings() if f.get("status") == "open"]
 
                 def on_result(r, cfg=cfg, fails=fails, part=part):
                     r.kv["config"] = cfg
                     r.kv["engine"] = part["engine"]
                     if is_failure(r):
+                        if any(finding_matches(f, self.prop, result_class(r), result_msg(r)) for f in open_findings):
+                            # an open known finding showing up again: keep a few for triage, never let it end the exploration
+                            known_hits.append(r)
+                            if len(known_hits) <= 3:
+                                fails.append(r)
+                            return False
                         fails.append(r)
-                        return len({result_class(x) for x in fails}) >= int(os.environ.get('VERIF_MAX_CLASSES', 3)) or len(fails) >= int(os.environ.get('VERIF_MAX_FAILS', 12))
+                        fresh = [x for x in fails if x not in known_hits]
+                        return len({result_class(x) for x in fresh}) >= int(os.environ.get('VERIF_MAX_CLASSES', 3)) or len(fresh) >= int(os.environ.get('VERIF_MAX_FAILS', 12))
                     return False
 
                 rs = run_parallel(self.exes[(part["engine"], cfg)], jobs(), nw, deadline=deadline, on_result=on_result)
